@@ -15,6 +15,14 @@
 //     classed out of domain and not compared;
 //   - the governance precompile 0xfe is compared for existence only; programs that call it are
 //     not compared (a panic is still a finding).
+//
+// Generator classes beyond the plain grammar (gen_accounts_test.go, gen_jumps_test.go) are
+// measured on what the in-tree run really executed, not on what the generator meant:
+//
+//	inspect:<op>:<existence state of the account looked at>[-after-<touching mechanism>]
+//	jump:<init|fresh|prestate>:<valid|not-a-jumpdest|into-push-data-at-5b|out-of-range>
+//	shape:different-initcodes-that-jump:<n>, shape:creates-in-one-tx, shape:call-into-code-deployed-in-this-tx
+//	txs:<n> for cases that send their message more than once (separate transactions).
 package c10
 
 import (
